@@ -152,8 +152,28 @@ fn length(args: &[data::Value]) -> Result<data::Value, EvalError> {
     }
 }
 
+/// dtparse panics on some malformed text ("12:30 -", "10:15:PM", "Jan/": index out of bounds, unwrap
+/// of None).  A row whose text is not a date is an error for that row, not the end of the run:
+/// run the parser with the panic message (and, in release builds, the crash report) switched off
+/// and hand the panic back as an error.
+fn quiet_unwind<T>(f: impl FnOnce() -> T + std::panic::UnwindSafe) -> std::thread::Result<T> {
+    lazy_static! {
+        static ref HOOK: std::sync::Mutex<()> = std::sync::Mutex::new(());
+    }
+    let _one_at_a_time = HOOK.lock();
+    let hook = std::panic::take_hook();
+    std::panic::set_hook(Box::new(|_| {}));
+    let result = std::panic::catch_unwind(f);
+    std::panic::set_hook(hook);
+    result
+}
+
 fn parse_date(date_str: &str) -> Result<data::Value, EvalError> {
-    dtparse::parse(date_str)
+    quiet_unwind(|| dtparse::parse(date_str))
+        .map_err(|_| EvalError::FunctionFailed {
+            name: "parseDate",
+            msg: format!("not a date -- {}", date_str),
+        })?
         .map_err(|parse_err| EvalError::FunctionFailed {
             name: "parseDate",
             msg: format!("{}", parse_err),
